@@ -16,9 +16,69 @@ ASSUMPTIONS = [
 ]
 
 
+def spec_c16_adapter(case, trace):
+    """C16 on a real Async adapter (harness `vh asyncio`): while the adapter lives and its task is parked the fd is
+    registered with exactly the interest waited for; once the adapter is gone (dropped, into_inner, executor removed)
+    the fd is not registered any more."""
+    mode = case[1].split()[1]
+    if mode == "adaptfail":
+        return None
+    total = int(case[3].split()[1])
+    for l in trace[2:]:
+        op, res = l[3:].split(" -> ")
+        kv = dict(x.split("=") for x in res.split())
+        done = kv["done"] == "1"
+        if done and kv["armed"] != "none":
+            return "the adapter is gone (%s) but its fd is still registered with the poller (interest `%s`)" % (case[4], kv["armed"])
+        if op == "settle" and not done and kv["ok"] == "1" and kv["armed"] != ("r" if mode == "read" else "w"):
+            if not (mode == "write" and int(kv["moved"]) == total):
+                return "after `%s` the task is parked on the adapter but the poller holds its fd with interest `%s`" % (op, kv["armed"])
+    return None
+
+
+def adapter_cases(res, tier, seed, have_drv):
+    import os
+    import common as C
+    from props import c17
+    cases = list(c17.SPECIAL) + c17.gen_cases("quick", seed, False)[:(120 if tier == "quick" else 300)]
+    impl, model = c17.run_all(cases, have_drv)
+    isolated = []
+    for c in c17.REMOVE_EXEC:
+        try:
+            i1, _ = c17.run_all([c], False)
+            isolated.append((c, i1[0]))
+        except RuntimeError:
+            pass        # a process that dies on these is C08/C15/C17's business
+    n = 0
+    for c, tr in list(zip(cases, impl)) + isolated:
+        n += 1
+        v = spec_c16_adapter(c, tr)
+        if v:
+            res.cov["impl_monitor_failures"] += 1
+            if len(res.violations) < 3:
+                d = C.write_replay(res.pid, {"case.io": "\n".join(c) + "\n", "impl.obs": "\n".join(tr) + "\n", "verdict.txt": v + "\n"})
+                res.violations.append(("C16 on a real adapter: %s   [%s]" % (v, " ; ".join(c[1:])), os.path.join(d, "case.io")))
+    if model is not None:
+        for c, a, b in zip(cases, impl, model):
+            if c17.comparable(c) and a != b and not res.broken:
+                res.broken.append("correspondence (adapter cases): real adapter and AsyncProto disagree on `%s`" % " ; ".join(c[1:]))
+    res.cov["adapter_cases"] = n
+    res.cov["evaluations"] = res.cov.get("evaluations", 0) + n
+
+
 def run(res, tier, seed, search=False, have_drv=True):
     coreprop.run_property(res, PID, PROFILES, tier, seed, search, have_drv)
+    adapter_cases(res, tier, seed, have_drv)
+    if res.violations:
+        res.broken = []
 
 
 def replay(path):
+    case = [l.rstrip("\n") for l in open(path) if l.strip()]
+    if len(case) > 1 and case[1].startswith("mode "):
+        from props import c17
+        impl, _ = c17.run_all([case], False)
+        v = spec_c16_adapter(case, impl[0])
+        print("\n".join(impl[0])); print("C16:", v)
+        return 1 if v else 0
     return coreprop.replay(path, PID)
